@@ -258,6 +258,12 @@ func checkC04(r *mc.Report, thorough bool) {
 			if d := snap.CheckHashes(); d != "" {
 				fail("hash-inconsistent", d)
 			}
+			// exactly one instance root: the node recorded in meta is the only one placed under "root"
+			if roots, metaRoot, err := sh.ReadRootEdges(filepath.Join(dir, "db")); err != nil {
+				fail("unreadable", "root edges cannot be read: "+err.Error())
+			} else if len(roots) != 1 || roots[0] != metaRoot || metaRoot != rec.RootID {
+				fail("second-root", fmt.Sprintf("after recovery the file holds root edges %v, meta root %q, instance root %q: a crashed initialisation left an orphaned root behind", roots, metaRoot, rec.RootID))
+			}
 			// the recovered instance keeps working and its identity is stable over another restart
 			if err := client.SendNodePoints(rec.Nc, rec.RootID, c04.History(0, rec.RootID)[10].Points, true); err != nil {
 				fail("write-after-recovery", "write refused after recovery: "+err.Error())
